@@ -423,7 +423,7 @@ def check_tlwe_monomial(chk, v):
         m = e[3] if e[2] == A else e[2]
         if m == sym.sub(twoN, I(1)):
             why = ("the exponent is reduced with ai & (2N-1), which is ai mod 2N only when N is a power of two: for any other ring degree "
-                   "(e.g. N = 3, ai = 4: 4 & 5 = 4, 4 mod 6 = 4; ai = 2: 2 & 5 = 0) most exponents are replaced by a different one")
+                   "(e.g. N = 3, ai = 2: 2 & 5 = 0, but 2 mod 6 = 2) exponents are replaced by different ones")
         else:
             why = "the exponent passed on is %s" % sym.show(e)
     else:
